@@ -116,3 +116,39 @@ class Scheduler:
         if self.failed:
             raise Deadlock(self.failed)
         return self.results
+
+
+class ThreadPoolSeq:
+    """Long-lived worker threads that execute callables strictly one at a time, each on the
+    thread named by the step: a *cross-thread history* (no concurrency, but thread-local or
+    thread-affine state shows up)."""
+
+    def __init__(self, n):
+        import queue
+        self.inq = [queue.Queue() for _ in range(n)]
+        self.outq = queue.Queue()
+        self.threads = [threading.Thread(target=self._loop, args=(i,), daemon=True)
+                        for i in range(n)]
+        for t in self.threads:
+            t.start()
+
+    def _loop(self, i):
+        while True:
+            fn = self.inq[i].get()
+            if fn is None:
+                return
+            try:
+                self.outq.put(('ok', fn()))
+            except BaseException as e:
+                self.outq.put(('exc', e))
+
+    def call(self, tid, fn, timeout=120):
+        self.inq[tid % len(self.inq)].put(fn)
+        kind, val = self.outq.get(timeout=timeout)
+        if kind == 'exc':
+            raise val
+        return val
+
+    def close(self):
+        for q in self.inq:
+            q.put(None)
